@@ -4,6 +4,7 @@
 # Copyright (c) 2015-2019, Ilya Etingof <etingof@gmail.com>
 # License: http://snmplabs.com/pysmi/license.html
 #
+import textwrap
 
 
 def capfirst(text):
@@ -11,3 +12,21 @@ def capfirst(text):
         return text
 
     return text[0].upper() + text[1:]
+
+
+def wordwrap(text, width=79):
+    """Wrap text at white space only, never inside a word.
+
+    Unlike Jinja's stock `wordwrap` this keeps words longer than `width`
+    (or hyphenated ones) in one piece, so that the wrapped text still reads
+    as the original MIB text.
+    """
+    if not text:
+        return text
+
+    return '\n'.join(
+        textwrap.fill(line, width=width, expand_tabs=False,
+                      replace_whitespace=False, break_long_words=False,
+                      break_on_hyphens=False)
+        for line in text.splitlines()
+    )
